@@ -128,3 +128,764 @@ Proof.
     rewrite <- (N.mod_small a (2 ^ s)) by exact Ha. tb_norm. tb_cases. }
   rewrite (N.add_nocarry_lxor _ _ Hl). symmetry. apply N.lxor_lor. exact Hl.
 Qed.
+
+(* ------------------------------------------------------------------ 3a. pack!: arithmetic of one step *)
+Lemma packA (tmp0 src s T W : N) :
+  s + W < T -> tmp0 < 2 ^ s -> src < 2 ^ W ->
+  (src * 2 ^ s) mod 2 ^ T = src * 2 ^ s /\ tmp0 + src * 2 ^ s < 2 ^ (s + W).
+Proof.
+  intros HsW Ht Hs.
+  assert (Hp : 2 ^ (s + W) = 2 ^ s * 2 ^ W) by apply N.pow_add_r.
+  assert (Hle : 2 ^ (s + W) <= 2 ^ T) by (apply pow2_le; lia).
+  pose proof (pow2_pos s). pose proof (pow2_pos W).
+  split.
+  - apply N.mod_small. nia.
+  - nia.
+Qed.
+
+Lemma packB (tmp0 src s T W : N) :
+  s < T -> W < T -> T <= s + W -> tmp0 < 2 ^ s -> src < 2 ^ W ->
+  (src * 2 ^ s) mod 2 ^ T = (src mod 2 ^ (T - s)) * 2 ^ s /\
+  tmp0 + (src mod 2 ^ (T - s)) * 2 ^ s < 2 ^ T /\
+  src / 2 ^ (T - s) < 2 ^ (s + W - T) /\
+  (tmp0 + (src mod 2 ^ (T - s)) * 2 ^ s) + 2 ^ T * (src / 2 ^ (T - s)) = tmp0 + 2 ^ s * src.
+Proof.
+  intros HsT HWT HTsW Ht Hs.
+  assert (HT : 2 ^ T = 2 ^ (T - s) * 2 ^ s).
+  { rewrite <- N.pow_add_r. f_equal. lia. }
+  assert (HW : 2 ^ W = 2 ^ (T - s) * 2 ^ (s + W - T)).
+  { rewrite <- N.pow_add_r. f_equal. lia. }
+  pose proof (pow2_pos s) as Hps. pose proof (pow2_pos (T - s)) as Hpd.
+  pose proof (N.div_mod src (2 ^ (T - s)) (pow2_ne0 _)) as Hdm.
+  pose proof (mod_lt2 src (T - s)) as Hml.
+  repeat split.
+  - rewrite HT. rewrite N.mul_mod_distr_r by (apply pow2_ne0). reflexivity.
+  - rewrite HT. nia.
+  - apply N.div_lt_upper_bound; [apply pow2_ne0|]. rewrite <- HW. exact Hs.
+  - rewrite HT. nia.
+Qed.
+
+(* ------------------------------------------------------------------ 3b. pack!: loop invariant *)
+Definition rows (r : nat) : list N := map N.of_nat (seq 0 r).
+
+Lemma rows_S (r : nat) : rows (S r) = rows r ++ [N.of_nat r].
+Proof. unfold rows. rewrite seq_S, map_app. reflexivity. Qed.
+
+Lemma rows_length (r : nat) : length (rows r) = r.
+Proof. unfold rows. rewrite map_length, seq_length. reflexivity. Qed.
+
+Lemma nseq_rows (n : N) : nseq n = rows (N.to_nat n).
+Proof. reflexivity. Qed.
+
+Lemma div_stepA (P W T : N) : 0 < T -> P mod T + W < T ->
+  (P + W) / T = P / T /\ (P + W) mod T = P mod T + W.
+Proof.
+  intros HT H. pose proof (N.div_mod P T ltac:(lia)) as E.
+  split; symmetry.
+  - apply N.div_unique with (r := P mod T + W); [exact H | lia].
+  - apply N.mod_unique with (q := P / T); [exact H | lia].
+Qed.
+
+Lemma div_stepB (P W T : N) : 0 < T -> W < T -> T <= P mod T + W ->
+  (P + W) / T = P / T + 1 /\ (P + W) mod T = P mod T + W - T.
+Proof.
+  intros HT HW H. pose proof (N.div_mod P T ltac:(lia)) as E.
+  pose proof (N.mod_lt P T ltac:(lia)) as Hs.
+  split; symmetry.
+  - apply N.div_unique with (r := P mod T + W - T); [lia | lia].
+  - apply N.mod_unique with (q := P / T + 1); [lia | lia].
+Qed.
+
+Section PackLane.
+  Variables T W : N.
+  Hypothesis HW0 : 0 < W.
+  Hypothesis HWT : W < T.
+  Variable src_of : N -> N.
+
+  Definition lv (r : N) : N := src_of r mod 2 ^ W.
+  Definition lvals (r : nat) : list N := map lv (rows r).
+
+  Lemma lvals_S r : lvals (S r) = lvals r ++ [lv (N.of_nat r)].
+  Proof. unfold lvals. rewrite rows_S, map_app. reflexivity. Qed.
+
+  Lemma lvals_length r : length (lvals r) = r.
+  Proof. unfold lvals. rewrite map_length. apply rows_length. Qed.
+
+  Lemma lvals_bound r : Forall (fun d => d < 2 ^ W) (lvals r).
+  Proof. unfold lvals. apply Forall_forall. intros x Hx. apply in_map_iff in Hx as [y [<- _]]. apply mod_lt2. Qed.
+
+  Definition pack_inv (r : nat) (st : N * list (N * N)) : Prop :=
+    let P := N.of_nat r * W in
+    map fst (snd st) = rows (N.to_nat (P / T)) /\
+    Forall (fun w => w < 2 ^ T) (map snd (snd st)) /\
+    fst st < 2 ^ (P mod T) /\
+    val (2 ^ T) (map snd (snd st)) + 2 ^ (T * (P / T)) * fst st = val (2 ^ W) (lvals r).
+
+  Lemma pack_inv_0 : pack_inv 0 (0, []).
+  Proof.
+    unfold pack_inv. cbn [fst snd map]. change (N.of_nat 0) with 0. rewrite N.mul_0_l.
+    rewrite N.div_0_l, N.mod_0_l by lia. repeat split.
+    - constructor.
+    - cbn. lia.
+  Qed.
+
+  Lemma pack_inv_step r st : pack_inv r st -> pack_inv (S r) (pack_step T W src_of st (N.of_nat r)).
+  Proof.
+    destruct st as [tmp ws]. unfold pack_inv. cbn [fst snd].
+    set (row := N.of_nat r). set (P := row * W).
+    intros (Hfst & Hws & Htmp & Hval).
+    assert (HT0 : 0 < T) by lia.
+    pose proof (N.mod_lt P T ltac:(lia)) as Hs.
+    set (s := P mod T) in *. set (c := P / T) in *.
+    assert (HP : P = T * c + s) by (apply N.div_mod; lia).
+    assert (HP1 : N.of_nat (S r) * W = P + W).
+    { rewrite Nat2N.inj_succ. fold row. unfold P. lia. }
+    rewrite HP1.
+    (* the step *)
+    unfold pack_step. fold row. fold P. replace ((row + 1) * W) with (P + W) by (unfold P; lia).
+    fold s. fold c.
+    rewrite land_mask. fold (lv row). set (src := lv row).
+    assert (Hsrc : src < 2 ^ W) by apply mod_lt2.
+    (* tmp after the or *)
+    assert (Htmp1 : (if row =? 0 then src else N.lor tmp (trunc T (N.shiftl src s)))
+                    = tmp + (src mod 2 ^ (T - s)) * 2 ^ s).
+    { assert (HTs : 2 ^ T = 2 ^ (T - s) * 2 ^ s) by (rewrite <- N.pow_add_r; f_equal; lia).
+      destruct (N.eqb_spec row 0) as [E|E].
+      - assert (s = 0) by (unfold s, P; rewrite E, N.mul_0_l; apply N.mod_0_l; lia).
+        subst s. replace (P mod T) with 0 in * by lia.
+        rewrite N.pow_0_r in *. rewrite N.sub_0_r. rewrite N.mul_1_r.
+        assert (tmp = 0) by lia. subst tmp.
+        rewrite N.mod_small; [lia|]. apply N.lt_trans with (2 ^ W); [exact Hsrc | apply pow2_lt; exact HWT].
+      - rewrite trunc_mod, N.shiftl_mul_pow2. rewrite HTs at 1.
+        rewrite N.mul_mod_distr_r by apply pow2_ne0.
+        apply lor_disjoint_add. exact Htmp. }
+    rewrite Htmp1. clear Htmp1.
+    assert (Hlen : N.of_nat (length (map snd ws)) = c).
+    { rewrite map_length, <- (map_length fst), Hfst, rows_length. apply N2Nat.id. }
+    assert (HvS : val (2 ^ W) (lvals (S r)) = val (2 ^ W) (lvals r) + 2 ^ (T * c) * 2 ^ s * src).
+    { rewrite lvals_S, val_snoc, lvals_length. fold row. fold src.
+      rewrite <- N.pow_mul_r. replace (W * row) with (T * c + s) by (unfold P in HP; lia).
+      rewrite N.pow_add_r. reflexivity. }
+    destruct (N.lt_ge_cases (s + W) T) as [HA|HB].
+    - (* no word completed *)
+      destruct (div_stepA P W T HT0 HA) as [Hd Hm]. fold c in Hd. fold s in Hm.
+      rewrite Hd, Hm. rewrite N.ltb_irrefl. cbn [fst snd].
+      destruct (packA tmp src s T W HA Htmp Hsrc) as [_ Hb].
+      assert (Hsm : src mod 2 ^ (T - s) = src).
+      { apply N.mod_small. apply N.lt_le_trans with (2 ^ W); [exact Hsrc | apply pow2_le; lia]. }
+      rewrite Hsm. repeat split; try assumption.
+      rewrite HvS. rewrite <- Hval. ring.
+    - (* a word is completed *)
+      destruct (div_stepB P W T HT0 HWT HB) as [Hd Hm]. fold c in Hd. fold s in Hm.
+      rewrite Hd, Hm. replace (c <? c + 1) with true by (symmetry; apply N.ltb_lt; lia).
+      cbn [fst snd]. replace (W - (s + W - T)) with (T - s) by lia.
+      rewrite N.shiftr_div_pow2.
+      destruct (packB tmp src s T W Hs HWT HB Htmp Hsrc) as (_ & Hw & Ht' & Heq).
+      rewrite !map_app. cbn [map fst snd]. repeat split.
+      + rewrite Hfst. replace (N.to_nat (c + 1)) with (S (N.to_nat c)) by lia.
+        rewrite rows_S. rewrite N2Nat.id. reflexivity.
+      + apply Forall_app. split; [exact Hws | constructor; [exact Hw | constructor]].
+      + exact Ht'.
+      + rewrite val_snoc, Hlen. rewrite <- N.pow_mul_r.
+        replace (T * (c + 1)) with (T * c + T) by lia. rewrite N.pow_add_r.
+        rewrite HvS. rewrite <- Hval.
+        set (A := 2 ^ (T * c)). set (w := tmp + src mod 2 ^ (T - s) * 2 ^ s) in *.
+        set (t' := src / 2 ^ (T - s)) in *.
+        transitivity (val (2 ^ T) (map snd ws) + A * (w + 2 ^ T * t')); [ring|].
+        rewrite Heq. ring.
+  Qed.
+End PackLane.
+
+(* ------------------------------------------------------------------ 3c. digit extraction, pack_lane, unpack! arithmetic *)
+Lemma val_nth (b : N) (ds : list N) (i : nat) :
+  0 < b -> Forall (fun d => d < b) ds -> (i < length ds)%nat ->
+  (val b ds / b ^ N.of_nat i) mod b = nth i ds 0.
+Proof.
+  intros Hb. revert i. induction ds as [|d ds IH]; intros i HF Hi; [cbn in Hi; lia|].
+  inversion HF as [|? ? Hd HF']; subst. cbn [val].
+  assert (Hdiv : (d + b * val b ds) / b = val b ds).
+  { rewrite N.mul_comm, N.div_add by lia. rewrite N.div_small by exact Hd. lia. }
+  destruct i as [|j].
+  - change (N.of_nat 0) with 0. rewrite N.pow_0_r, N.div_1_r.
+    rewrite N.mul_comm, N.mod_add by lia. cbn [nth]. apply N.mod_small. exact Hd.
+  - rewrite Nat2N.inj_succ, N.pow_succ_r'. rewrite <- N.div_div by (try apply N.pow_nonzero; lia).
+    rewrite Hdiv. cbn [nth]. apply IH; [exact HF' | cbn [length] in Hi; lia].
+Qed.
+
+Lemma fold_rows {A} (f : A -> N -> A) (P : nat -> A -> Prop) (a0 : A) :
+  P 0%nat a0 -> (forall r a, P r a -> P (S r) (f a (N.of_nat r))) ->
+  forall r, P r (fold_left f (rows r) a0).
+Proof.
+  intros H0 HS. induction r as [|r IH]; [exact H0|].
+  rewrite rows_S, fold_left_app. cbn [fold_left]. apply HS. exact IH.
+Qed.
+
+Lemma fold_rows_bounded {A} (f : A -> N -> A) (P : nat -> A -> Prop) (a0 : A) (n : nat) :
+  P 0%nat a0 -> (forall r a, (r < n)%nat -> P r a -> P (S r) (f a (N.of_nat r))) ->
+  forall r, (r <= n)%nat -> P r (fold_left f (rows r) a0).
+Proof.
+  intros H0 HS. induction r as [|r IH]; intro Hr; [exact H0|].
+  rewrite rows_S, fold_left_app. cbn [fold_left]. apply HS; [lia | apply IH; lia].
+Qed.
+
+(* ---- pack_lane, general widths 0 < W < T *)
+Lemma pack_lane_spec (T W : N) (src_of : N -> N) :
+  0 < W -> W < T ->
+  let ws := pack_lane T W src_of in
+  map fst ws = rows (N.to_nat W) /\
+  Forall (fun w => w < 2 ^ T) (map snd ws) /\
+  val (2 ^ T) (map snd ws) = val (2 ^ W) (lvals W src_of (N.to_nat T)).
+Proof.
+  intros HW0 HWT. unfold pack_lane.
+  destruct (N.eqb_spec W 0) as [E|_]; [lia|]. destruct (N.eqb_spec W T) as [E|_]; [lia|].
+  rewrite nseq_rows.
+  pose proof (fold_rows (pack_step T W src_of) (pack_inv T W src_of) (0, [])
+                (pack_inv_0 T W HW0 HWT src_of) (fun r a => pack_inv_step T W HW0 HWT src_of r a) (N.to_nat T)) as H.
+  destruct (fold_left (pack_step T W src_of) (rows (N.to_nat T)) (0, [])) as [tmp ws].
+  unfold pack_inv in H. cbn [fst snd] in *. rewrite N2Nat.id in H.
+  replace (T * W / T) with W in H by (symmetry; rewrite N.mul_comm; apply N.div_mul; lia).
+  replace ((T * W) mod T) with 0 in H by (symmetry; rewrite N.mul_comm; apply N.mod_mul; lia).
+  destruct H as (H1 & H2 & H3 & H4). rewrite N.pow_0_r in H3. assert (tmp = 0) by lia. subst tmp.
+  repeat split; [exact H1 | exact H2 | lia].
+Qed.
+
+(* ---- unpack!: the two ways a value is assembled *)
+Lemma unpackA (X s W T : N) : s + W <= T ->
+  ((X mod 2 ^ T) / 2 ^ s) mod 2 ^ W = (X / 2 ^ s) mod 2 ^ W.
+Proof. intro H. apply N.bits_inj. intro i. tb_norm. tb_cases. Qed.
+
+Lemma unpackB (X s W T : N) : s < T -> W <= T -> T <= s + W ->
+  N.lor (((X mod 2 ^ T) / 2 ^ s) mod 2 ^ (T - s))
+        (((((X / 2 ^ T) mod 2 ^ T) mod 2 ^ (s + W - T)) * 2 ^ (T - s)) mod 2 ^ T)
+  = (X / 2 ^ s) mod 2 ^ W.
+Proof. intros H1 H2 H3. apply N.bits_inj. intro i. tb_norm. tb_cases. Qed.
+
+(* ------------------------------------------------------------------ 3d. unpack!: loop invariant *)
+Lemma mask_small (T w x : N) : w < T -> N.land x (unpack_mask T w) = x mod 2 ^ w.
+Proof.
+  intro H. unfold unpack_mask. destruct (N.eqb_spec w T) as [E|_]; [lia|].
+  rewrite N.mod_small by exact H. apply land_mask.
+Qed.
+
+Lemma div_pow_add (X a b : N) : X / 2 ^ (a + b) = X / 2 ^ a / 2 ^ b.
+Proof. rewrite N.pow_add_r. symmetry. apply N.div_div; apply pow2_ne0. Qed.
+
+Section UnpackLane.
+  Variables T W : N.
+  Hypothesis HW0 : 0 < W.
+  Hypothesis HWT : W < T.
+  Variable packed_of : N -> N.
+  Variable X : N.
+  Hypothesis Hdig : forall k, k < W -> packed_of k = (X / 2 ^ (T * k)) mod 2 ^ T.
+
+  Definition dig (i : N) : N := (X / 2 ^ (W * i)) mod 2 ^ W.
+
+  Definition unpack_inv (r : nat) (st : N * list (N * N)) : Prop :=
+    let P := N.of_nat r * W in
+    (P / T < W -> fst st = packed_of (P / T)) /\
+    map fst (snd st) = rows r /\
+    map snd (snd st) = map dig (rows r).
+
+  Lemma unpack_inv_0 : unpack_inv 0 (packed_of 0, []).
+  Proof.
+    unfold unpack_inv. cbn [fst snd map]. change (N.of_nat 0) with 0. rewrite N.mul_0_l.
+    rewrite N.div_0_l by lia. repeat split.
+  Qed.
+
+  Lemma unpack_inv_step r st : (r < N.to_nat T)%nat ->
+    unpack_inv r st -> unpack_inv (S r) (unpack_step T W packed_of st (N.of_nat r)).
+  Proof.
+    intros Hr. destruct st as [src outs]. unfold unpack_inv. cbn [fst snd].
+    set (row := N.of_nat r).
+    intros (Hsrc & Hfst & Hsnd).
+    assert (HT0 : 0 < T) by lia.
+    assert (Hrow : row < T) by (unfold row; lia).
+    assert (HP1 : N.of_nat (S r) * W = row * W + W).
+    { rewrite Nat2N.inj_succ. fold row. lia. }
+    rewrite HP1. unfold unpack_step. fold row.
+    replace ((row + 1) * W) with (row * W + W) by lia.
+    remember (row * W) as P eqn:HPdef.
+    pose proof (N.mod_lt P T ltac:(lia)) as Hs.
+    assert (Hc : P / T < W).
+    { apply N.div_lt_upper_bound; [lia|]. subst P. clear - Hrow HW0. nia. }
+    specialize (Hsrc Hc).
+    pose proof (N.div_mod P T ltac:(lia)) as HP.
+    pose proof (div_stepA P W T HT0) as DA. pose proof (div_stepB P W T HT0 HWT) as DB.
+    pose proof (N.mul_div_le (P + W) T ltac:(lia)) as Hle.
+    assert (Hmm : (P + W = T * W) -> (P + W) mod T = 0).
+    { intros ->. rewrite N.mul_comm. apply N.mod_mul. lia. }
+    remember (P mod T) as s eqn:Hsdef. remember (P / T) as c eqn:Hcdef.
+    clear Hsdef Hcdef.
+    assert (HPle : P + W <= T * W) by (subst P; clear - Hrow; nia).
+    assert (HWr : W * row = T * c + s) by (subst P; lia).
+    clear HPdef.
+    set (X' := X / 2 ^ (T * c)).
+    assert (Hsrc' : src = X' mod 2 ^ T) by (rewrite Hsrc; apply Hdig; exact Hc).
+    assert (Hdigrow : dig row = (X' / 2 ^ s) mod 2 ^ W).
+    { unfold dig. rewrite HWr. rewrite div_pow_add. reflexivity. }
+    clear HWr.
+    assert (Hrows : forall v, map fst (outs ++ [(row, v)]) = rows (S r) /\
+                              (v = dig row -> map snd (outs ++ [(row, v)]) = map dig (rows (S r)))).
+    { intro v. rewrite !map_app, rows_S, map_app. cbn [map fst snd]. rewrite Hfst, Hsnd.
+      split; [reflexivity | intros ->; reflexivity]. }
+    clear Hfst Hsnd HP1.
+    destruct (N.lt_ge_cases (s + W) T) as [HA|HB].
+    - destruct (DA HA) as [Hd Hm]. clear DA DB.
+      rewrite Hd. rewrite N.ltb_irrefl. cbn [fst snd].
+      destruct (Hrows (N.land (N.shiftr src s) (unpack_mask T W))) as [R1 R2].
+      split; [intros _; exact Hsrc | split; [exact R1 | apply R2]].
+      rewrite mask_small by exact HWT. rewrite N.shiftr_div_pow2, Hsrc', Hdigrow.
+      apply unpackA. clear - HA. lia.
+    - destruct (DB HB) as [Hd Hm]. clear DA DB.
+      rewrite Hd, Hm.
+      assert (E0 : (c <? c + 1) = true) by (apply N.ltb_lt; clear; lia).
+      assert (E1 : W - (s + W - T) = T - s) by (clear - HB Hs; lia).
+      assert (Hs1 : T - s < T) by (clear - HB HWT Hs; lia).
+      assert (Hs2 : s + W - T < T) by (clear - HB HWT Hs; lia).
+      rewrite E0, E1.
+      rewrite (mask_small T (T - s)) by exact Hs1. rewrite N.shiftr_div_pow2.
+      destruct (N.ltb_spec (c + 1) W) as [HB1|HB2]; cbn [fst snd].
+      + set (v := N.lor _ _). destruct (Hrows v) as [R1 R2].
+        split; [intros _; reflexivity | split; [exact R1 | apply R2]].
+        unfold v. rewrite mask_small by exact Hs2. rewrite trunc_mod, N.shiftl_mul_pow2.
+        rewrite (Hdig (c + 1) HB1). replace (T * (c + 1)) with (T * c + T) by (clear; lia).
+        rewrite div_pow_add. fold X'. rewrite Hsrc', Hdigrow.
+        apply unpackB; [exact Hs | clear - HWT; lia | exact HB].
+      + set (v := (src / 2 ^ s) mod 2 ^ (T - s)). destruct (Hrows v) as [R1 R2].
+        assert (HPW : P + W = T * W).
+        { rewrite Hd in Hle. assert (c + 1 = W) by (clear - HB2 Hc; lia). clear - Hle HPle H. nia. }
+        assert (Hrem : s + W = T).
+        { specialize (Hmm HPW). clear - Hmm Hm HB. lia. }
+        split; [intro Hlt; clear - Hlt HB2; lia | split; [exact R1 | apply R2]].
+        unfold v. replace (T - s) with W by (clear - Hrem; lia). rewrite Hsrc', Hdigrow. apply unpackA.
+        clear - Hrem. lia.
+  Qed.
+
+  Lemma unpack_lane_general :
+    let outs := snd (fold_left (unpack_step T W packed_of) (rows (N.to_nat T)) (packed_of 0, [])) in
+    map fst outs = rows (N.to_nat T) /\ map snd outs = map dig (rows (N.to_nat T)).
+  Proof.
+    pose proof (fold_rows_bounded (unpack_step T W packed_of) unpack_inv (packed_of 0, []) (N.to_nat T)
+                  unpack_inv_0 (fun r a Hr => unpack_inv_step r a Hr) (N.to_nat T) (le_n _)) as H.
+    destruct H as (_ & H1 & H2). split; assumption.
+  Qed.
+End UnpackLane.
+
+(* ------------------------------------------------------------------ 4a. functional arrays, scatter, finite facts about the index maps *)
+(* ---- functional arrays *)
+Lemma upd_length {A} (l : list A) (i : nat) (v : A) : length (upd l i v) = length l.
+Proof. revert i. induction l as [|x l IH]; intros [|i]; cbn [upd length]; try reflexivity. rewrite IH. reflexivity. Qed.
+
+Lemma nth_upd_eq {A} (l : list A) (i : nat) (v d : A) : (i < length l)%nat -> nth i (upd l i v) d = v.
+Proof.
+  revert i. induction l as [|x l IH]; intros [|i] H; cbn [length] in H; try lia; cbn [upd nth]; [reflexivity|].
+  apply IH. lia.
+Qed.
+
+Lemma nth_upd_neq {A} (l : list A) (i j : nat) (v d : A) : i <> j -> nth i (upd l j v) d = nth i l d.
+Proof.
+  revert i j. induction l as [|x l IH]; intros [|i] [|j] H; cbn [upd nth]; try reflexivity; try congruence.
+  apply IH. congruence.
+Qed.
+
+Lemma scatter_cons (out : list N) (w : N * N) (ws : list (N * N)) :
+  scatter out (w :: ws) = scatter (upd out (N.to_nat (fst w)) (snd w)) ws.
+Proof. reflexivity. Qed.
+
+Lemma scatter_length (out : list N) (ws : list (N * N)) : length (scatter out ws) = length out.
+Proof.
+  revert out. induction ws as [|w ws IH]; intro out; [reflexivity|].
+  rewrite scatter_cons, IH. apply upd_length.
+Qed.
+
+Lemma scatter_notin (out : list N) (ws : list (N * N)) (i : N) :
+  ~ In i (map fst ws) -> nth (N.to_nat i) (scatter out ws) 0 = nth (N.to_nat i) out 0.
+Proof.
+  revert out. induction ws as [|w ws IH]; intros out H; [reflexivity|].
+  rewrite scatter_cons, IH.
+  - apply nth_upd_neq. intro E. apply H. left. apply N2Nat.inj. symmetry. exact E.
+  - intro Hin. apply H. right. exact Hin.
+Qed.
+
+Lemma scatter_nth (out : list N) (ws : list (N * N)) (i v : N) :
+  NoDup (map fst ws) -> In (i, v) ws -> (N.to_nat i < length out)%nat ->
+  nth (N.to_nat i) (scatter out ws) 0 = v.
+Proof.
+  revert out. induction ws as [|w ws IH]; intros out Hnd Hin Hlen; [destruct Hin|].
+  cbn [map] in Hnd. inversion Hnd as [|? ? Hnotin Hnd']; subst.
+  rewrite scatter_cons. destruct Hin as [->|Hin].
+  - cbn [fst snd] in *. rewrite scatter_notin by exact Hnotin. apply nth_upd_eq. exact Hlen.
+  - apply IH; [exact Hnd' | exact Hin | rewrite upd_length; exact Hlen].
+Qed.
+
+(* ---- decidable NoDup on N *)
+Fixpoint nodupb (l : list N) : bool :=
+  match l with
+  | [] => true
+  | x :: r => negb (existsb (N.eqb x) r) && nodupb r
+  end.
+
+Lemma nodupb_NoDup (l : list N) : nodupb l = true -> NoDup l.
+Proof.
+  induction l as [|x l IH]; intro H; [constructor|].
+  cbn [nodupb] in H. apply andb_true_iff in H as [H1 H2]. constructor; [|apply IH; exact H2].
+  intro Hin. apply negb_true_iff in H1.
+  assert (E : existsb (N.eqb x) l = true) by (apply existsb_exists; exists x; split; [exact Hin | apply N.eqb_refl]).
+  congruence.
+Qed.
+
+(* ---- lists of pairs *)
+Lemma in_pairs (l : list (N * N)) (n k : nat) :
+  map fst l = rows n -> (k < n)%nat -> In (N.of_nat k, nth k (map snd l) 0) l.
+Proof.
+  intros Hf Hk.
+  assert (Hlen : length l = n) by (rewrite <- (map_length fst), Hf; apply rows_length).
+  assert (E : nth k l (0, 0) = (N.of_nat k, nth k (map snd l) 0)).
+  { rewrite (surjective_pairing (nth k l (0, 0))). f_equal.
+    - rewrite <- (map_nth fst l (0, 0) k). rewrite Hf. unfold rows.
+      change (fst (0, 0)) with (N.of_nat 0). rewrite map_nth. rewrite seq_nth by exact Hk. reflexivity.
+    - rewrite <- (map_nth snd l (0, 0) k). reflexivity. }
+  rewrite <- E. apply nth_In. lia.
+Qed.
+
+Lemma in_rows (n : nat) (x : N) : In x (rows n) <-> x < N.of_nat n.
+Proof.
+  unfold rows. rewrite in_map_iff. split.
+  - intros [k [<- Hk]]. apply in_seq in Hk. lia.
+  - intro H. exists (N.to_nat x). split; [apply N2Nat.id | apply in_seq; lia].
+Qed.
+
+(* ---- positions written by the array-level loops *)
+Definition pack_pos (L W : N) : list N :=
+  flat_map (fun lane => map (fun k => L * k + lane) (rows (N.to_nat W))) (rows (N.to_nat L)).
+
+Definition unpack_pos (T : N) : list N :=
+  flat_map (fun lane => map (fun row => fl_index row lane) (rows (N.to_nat T))) (rows (N.to_nat (fl_lanes T))).
+
+Definition types : list N := [8; 16; 32; 64].
+
+Lemma pack_pos_ok :
+  forallb (fun T => forallb (fun W => nodupb (pack_pos (fl_lanes T) W)
+                                      && forallb (fun p => p <? fl_lanes T * W) (pack_pos (fl_lanes T) W))
+                            (rows (N.to_nat (T + 1)))) types = true.
+Proof. vm_compute. reflexivity. Qed.
+
+Lemma unpack_pos_ok :
+  forallb (fun T => nodupb (unpack_pos T) && forallb (fun p => p <? 1024) (unpack_pos T)
+                    && forallb (fun i => existsb (N.eqb i) (unpack_pos T)) (rows 1024)
+                    && (fl_lanes T * T =? 1024)) types = true.
+Proof. vm_compute. reflexivity. Qed.
+
+(* ------------------------------------------------------------------ 3e. one lane, all widths; lane round trip *)
+Lemma nth_rows (n i : nat) : (i < n)%nat -> nth i (rows n) 0 = N.of_nat i.
+Proof.
+  intro H. unfold rows. change 0 with (N.of_nat 0). rewrite map_nth, seq_nth by exact H. reflexivity.
+Qed.
+
+Lemma map_fst_pairs {A} (f : N -> A) (l : list N) : map fst (map (fun x => (x, f x)) l) = l.
+Proof. rewrite map_map. cbn [fst]. apply map_id. Qed.
+
+Lemma map_snd_pairs {A} (f : N -> A) (l : list N) : map snd (map (fun x => (x, f x)) l) = map f l.
+Proof. rewrite map_map. reflexivity. Qed.
+
+Lemma pow_pow2 (a b : N) : (2 ^ a) ^ b = 2 ^ (a * b).
+Proof. symmetry. apply N.pow_mul_r. Qed.
+
+(* ---- one lane, all widths 0 < W <= T *)
+Lemma pack_lane_sum (T W : N) (src_of : N -> N) :
+  0 < W -> W <= T -> (forall r, src_of r < 2 ^ T) ->
+  let ws := pack_lane T W src_of in
+  map fst ws = rows (N.to_nat W) /\
+  Forall (fun w => w < 2 ^ T) (map snd ws) /\
+  val (2 ^ T) (map snd ws) = val (2 ^ W) (lvals W src_of (N.to_nat T)).
+Proof.
+  intros HW0 HWT Hb. destruct (N.eq_dec W T) as [->|Hne].
+  - unfold pack_lane. destruct (N.eqb_spec T 0) as [E|_]; [lia|]. rewrite N.eqb_refl.
+    rewrite nseq_rows, map_fst_pairs, map_snd_pairs. repeat split.
+    + apply Forall_forall. intros x Hx. apply in_map_iff in Hx as [r [<- _]]. apply Hb.
+    + f_equal. unfold lvals, lv. apply map_ext. intro r. symmetry. apply N.mod_small. apply Hb.
+  - apply pack_lane_spec; lia.
+Qed.
+
+Lemma unpack_lane_sum (T W : N) (packed_of : N -> N) (X : N) :
+  0 < W -> W <= T ->
+  (forall k, k < W -> packed_of k = (X / 2 ^ (T * k)) mod 2 ^ T) ->
+  let outs := unpack_lane T W packed_of in
+  map fst outs = rows (N.to_nat T) /\ map snd outs = map (dig W X) (rows (N.to_nat T)).
+Proof.
+  intros HW0 HWT Hdig. destruct (N.eq_dec W T) as [->|Hne].
+  - unfold unpack_lane. destruct (N.eqb_spec T 0) as [E|_]; [lia|]. rewrite N.eqb_refl.
+    rewrite nseq_rows, map_fst_pairs, map_snd_pairs. split; [reflexivity|].
+    apply map_ext_in. intros r Hr. apply in_rows in Hr. rewrite N2Nat.id in Hr.
+    unfold dig. apply Hdig. exact Hr.
+  - unfold unpack_lane. destruct (N.eqb_spec W 0) as [E|_]; [lia|]. destruct (N.eqb_spec W T) as [E|_]; [lia|].
+    rewrite nseq_rows. apply (unpack_lane_general T W ltac:(lia) ltac:(lia) packed_of X Hdig).
+Qed.
+
+Lemma lane_roundtrip (T W : N) (src_of packed_of : N -> N) :
+  0 < W -> W <= T -> (forall r, src_of r < 2 ^ T) ->
+  (forall k, k < W -> packed_of k = nth (N.to_nat k) (map snd (pack_lane T W src_of)) 0) ->
+  let outs := unpack_lane T W packed_of in
+  map fst outs = rows (N.to_nat T) /\
+  map snd outs = map (fun r => src_of r mod 2 ^ W) (rows (N.to_nat T)).
+Proof.
+  intros HW0 HWT Hb Hp.
+  destruct (pack_lane_sum T W src_of HW0 HWT Hb) as (Hf & Hw & Hv).
+  set (words := map snd (pack_lane T W src_of)) in *.
+  assert (Hlen : length words = N.to_nat W).
+  { unfold words. rewrite map_length, <- (map_length fst), Hf. apply rows_length. }
+  set (X := val (2 ^ T) words).
+  assert (Hdig : forall k, k < W -> packed_of k = (X / 2 ^ (T * k)) mod 2 ^ T).
+  { intros k Hk. rewrite (Hp k Hk). unfold X.
+    rewrite <- (val_nth (2 ^ T) words (N.to_nat k)); [|apply pow2_pos | exact Hw | lia].
+    rewrite N2Nat.id, pow_pow2. reflexivity. }
+  destruct (unpack_lane_sum T W packed_of X HW0 HWT Hdig) as [H1 H2].
+  split; [exact H1|]. rewrite H2. apply map_ext_in. intros r Hr. apply in_rows in Hr. rewrite N2Nat.id in Hr.
+  unfold dig, X. rewrite Hv.
+  replace (2 ^ (W * r)) with ((2 ^ W) ^ N.of_nat (N.to_nat r)) by (rewrite N2Nat.id; apply pow_pow2).
+  rewrite val_nth; [| apply pow2_pos | apply lvals_bound | rewrite lvals_length; lia].
+  unfold lvals. rewrite (nth_indep _ 0 (lv W src_of 0)) by (rewrite map_length, rows_length; lia).
+  rewrite map_nth. rewrite nth_rows by lia. rewrite N2Nat.id. reflexivity.
+Qed.
+
+(* ------------------------------------------------------------------ 4b. the 1024-element arrays *)
+Lemma map_fst_flat_map {A} (f : A -> list (N * N)) (l : list A) :
+  map fst (flat_map f l) = flat_map (fun x => map fst (f x)) l.
+Proof. induction l as [|x l IH]; cbn [flat_map map]; [reflexivity|]. rewrite map_app, IH. reflexivity. Qed.
+
+Lemma flat_map_ext_in' {A B} (f g : A -> list B) (l : list A) :
+  (forall a, In a l -> f a = g a) -> flat_map f l = flat_map g l.
+Proof.
+  induction l as [|x l IH]; intro H; cbn [flat_map]; [reflexivity|].
+  rewrite (H x (or_introl eq_refl)), IH; [reflexivity|]. intros a Ha. apply H. right. exact Ha.
+Qed.
+
+Lemma nth_map_rows (f : N -> N) (n i : nat) : (i < n)%nat -> nth i (map f (rows n)) 0 = f (N.of_nat i).
+Proof.
+  intro H. rewrite (nth_indep _ 0 (f 0)) by (rewrite map_length, rows_length; lia).
+  rewrite map_nth, nth_rows by lia. reflexivity.
+Qed.
+
+Lemma packed_len_spec (T W : N) : In T types -> packed_len T W = fl_lanes T * W.
+Proof.
+  unfold packed_len, fl_lanes, types. intros [<-|[<-|[<-|[<-|[]]]]].
+  - change (8 / 8) with 1. change (1024 / 8) with 128. rewrite N.div_1_r. reflexivity.
+  - change (16 / 8) with 2. change (1024 / 16) with 64. replace (128 * W) with (64 * W * 2) by lia.
+    apply N.div_mul. discriminate.
+  - change (32 / 8) with 4. change (1024 / 32) with 32. replace (128 * W) with (32 * W * 4) by lia.
+    apply N.div_mul. discriminate.
+  - change (64 / 8) with 8. change (1024 / 64) with 16. replace (128 * W) with (16 * W * 8) by lia.
+    apply N.div_mul. discriminate.
+Qed.
+
+Lemma types_pos (T : N) : In T types -> 0 < T /\ 0 < fl_lanes T.
+Proof. unfold types. intros [<-|[<-|[<-|[<-|[]]]]]; split; vm_compute; reflexivity. Qed.
+
+Section Arrays.
+  Variables T W : N.
+  Hypothesis HT : In T types.
+  Hypothesis HW0 : 0 < W.
+  Hypothesis HWT : W <= T.
+  Let L := fl_lanes T.
+
+  Lemma pack_facts : NoDup (pack_pos L W) /\ forall p, In p (pack_pos L W) -> p < L * W.
+  Proof.
+    pose proof pack_pos_ok as H. rewrite forallb_forall in H. specialize (H T HT).
+    rewrite forallb_forall in H. specialize (H W). 
+    assert (Hin : In W (rows (N.to_nat (T + 1)))) by (apply in_rows; lia).
+    specialize (H Hin). apply andb_true_iff in H as [H1 H2]. split.
+    - apply nodupb_NoDup. exact H1.
+    - intros p Hp. rewrite forallb_forall in H2. specialize (H2 p Hp). apply N.ltb_lt. exact H2.
+  Qed.
+
+  Lemma unpack_facts :
+    NoDup (unpack_pos T) /\ (forall p, In p (unpack_pos T) -> p < 1024) /\
+    (forall i, i < 1024 -> In i (unpack_pos T)) /\ L * T = 1024.
+  Proof.
+    pose proof unpack_pos_ok as H. rewrite forallb_forall in H. specialize (H T HT).
+    apply andb_true_iff in H as [H H4]. apply andb_true_iff in H as [H H3]. apply andb_true_iff in H as [H1 H2].
+    repeat split.
+    - apply nodupb_NoDup. exact H1.
+    - intros p Hp. rewrite forallb_forall in H2. apply N.ltb_lt. apply H2. exact Hp.
+    - intros i Hi. rewrite forallb_forall in H3.
+      assert (Hin : In i (rows 1024)) by (apply in_rows; exact Hi).
+      specialize (H3 i Hin). apply existsb_exists in H3 as [x [Hx E]]. apply N.eqb_eq in E. subst x. exact Hx.
+    - apply N.eqb_eq. exact H4.
+  Qed.
+
+  Variable input : list N.
+  Hypothesis Hin_len : length input = 1024%nat.
+  Hypothesis Hin_b : Forall (fun x => x < 2 ^ T) input.
+
+  Lemma rd_bound (i : N) : rd input i < 2 ^ T.
+  Proof.
+    unfold rd. destruct (nth_in_or_default (N.to_nat i) input 0) as [H| ->].
+    - rewrite Forall_forall in Hin_b. apply Hin_b. exact H.
+    - apply pow2_pos.
+  Qed.
+
+  Definition src (lane : N) : N -> N := fun row => rd input (fl_index row lane).
+  Definition words (lane : N) : list N := map snd (pack_lane T W (src lane)).
+
+  Lemma pack_writes_fst : map fst (pack_writes T W input) = pack_pos L W.
+  Proof.
+    unfold pack_writes, pack_pos. rewrite map_fst_flat_map. fold L. rewrite nseq_rows.
+    apply flat_map_ext. intro lane. rewrite map_map. cbn [fst].
+    destruct (pack_lane_sum T W (src lane) HW0 HWT (fun r => rd_bound _)) as (Hf & _ & _).
+    fold (src lane). rewrite <- Hf. rewrite map_map. reflexivity.
+  Qed.
+
+  Lemma pack_array (out0 : list N) :
+    N.of_nat (length out0) = L * W ->
+    forall lane k, lane < L -> k < W ->
+      rd (scatter out0 (pack_writes T W input)) (L * k + lane) = nth (N.to_nat k) (words lane) 0.
+  Proof.
+    intros Hlen lane k Hlane Hk. destruct pack_facts as [Hnd Hb].
+    unfold rd. apply scatter_nth.
+    - rewrite pack_writes_fst. exact Hnd.
+    - unfold pack_writes. apply in_flat_map. exists lane. split; [apply in_rows; fold L; lia|].
+      apply in_map_iff. exists (k, nth (N.to_nat k) (words lane) 0). split; [reflexivity|].
+      destruct (pack_lane_sum T W (src lane) HW0 HWT (fun r => rd_bound _)) as (Hf & _ & _).
+      pose proof (in_pairs (pack_lane T W (src lane)) (N.to_nat W) (N.to_nat k) Hf ltac:(lia)) as H.
+      rewrite N2Nat.id in H. exact H.
+    - assert (L * k + lane < L * W) by nia. lia.
+  Qed.
+
+  Variable packed : list N.
+  Hypothesis Hpacked : forall lane k, lane < L -> k < W -> rd packed (L * k + lane) = nth (N.to_nat k) (words lane) 0.
+
+  Definition pk (lane : N) : N -> N := fun word => rd packed (L * word + lane).
+
+  Lemma unpack_lane_ok (lane : N) : lane < L ->
+    map fst (unpack_lane T W (pk lane)) = rows (N.to_nat T) /\
+    map snd (unpack_lane T W (pk lane)) = map (fun r => src lane r mod 2 ^ W) (rows (N.to_nat T)).
+  Proof.
+    intro Hlane. apply lane_roundtrip; [exact HW0 | exact HWT | intro r; apply rd_bound |].
+    intros k Hk. unfold pk. apply Hpacked; assumption.
+  Qed.
+
+  Lemma unpack_writes_fst : map fst (unpack_writes T W packed) = unpack_pos T.
+  Proof.
+    unfold unpack_writes, unpack_pos. rewrite map_fst_flat_map. fold L. rewrite nseq_rows.
+    apply flat_map_ext_in'. intros lane Hlane. apply in_rows in Hlane. rewrite N2Nat.id in Hlane.
+    rewrite map_map. cbn [fst]. destruct (unpack_lane_ok lane Hlane) as [Hf _].
+    fold (pk lane). rewrite <- Hf. rewrite map_map. reflexivity.
+  Qed.
+
+  Lemma unpack_array (out1 : list N) :
+    length out1 = 1024%nat ->
+    scatter out1 (unpack_writes T W packed) = map (fun x => x mod 2 ^ W) input.
+  Proof.
+    intro Hlen. destruct unpack_facts as (Hnd & Hb & Hsurj & HLT).
+    apply (nth_ext _ _ 0 0).
+    - rewrite scatter_length, map_length. lia.
+    - intros n Hn. rewrite scatter_length, Hlen in Hn.
+      assert (Hi : N.of_nat n < 1024) by lia.
+      pose proof (Hsurj _ Hi) as Hpos. unfold unpack_pos in Hpos. fold L in Hpos.
+      apply in_flat_map in Hpos as [lane [Hlane Hpos]]. apply in_map_iff in Hpos as [row [Hidx Hrow]].
+      apply in_rows in Hlane. apply in_rows in Hrow. rewrite N2Nat.id in Hlane, Hrow.
+      destruct (unpack_lane_ok lane Hlane) as [Hf Hs].
+      rewrite <- (Nat2N.id n). rewrite <- Hidx.
+      rewrite (scatter_nth out1 (unpack_writes T W packed) (fl_index row lane) (src lane row mod 2 ^ W)).
+      + symmetry. exact (map_nth (fun x => x mod 2 ^ W) input 0 (N.to_nat (fl_index row lane))).
+      + rewrite unpack_writes_fst. exact Hnd.
+      + unfold unpack_writes. apply in_flat_map. exists lane. split; [apply in_rows; fold L; lia|].
+        apply in_map_iff. exists (row, src lane row mod 2 ^ W). split; [reflexivity|].
+        pose proof (in_pairs (unpack_lane T W (pk lane)) (N.to_nat T) (N.to_nat row) Hf ltac:(lia)) as H.
+        rewrite N2Nat.id in H. fold (pk lane). rewrite Hs in H.
+        rewrite nth_map_rows in H by lia. rewrite N2Nat.id in H. exact H.
+      + rewrite Hidx, Nat2N.id. lia.
+  Qed.
+End Arrays.
+
+(* ------------------------------------------------------------------ 5. unchecked_pack / unchecked_unpack *)
+Lemma map_const_len {A} (c : N) (l1 l2 : list A) : length l1 = length l2 -> map (fun _ => c) l1 = map (fun _ => c) l2.
+Proof.
+  revert l2. induction l1 as [|x l1 IH]; intros [|y l2] H; try discriminate; [reflexivity|].
+  cbn [map]. f_equal. apply IH. cbn [length] in H. lia.
+Qed.
+
+(* BitPacking::unchecked_unpack(W, unchecked_pack(W, v)) = v mod 2^W, all four types, all widths *)
+Theorem fl_roundtrip_gen (T W : N) (input out0 out1 : list N) :
+  In T types -> W <= T ->
+  length input = 1024%nat -> Forall (fun x => x < 2 ^ T) input ->
+  N.of_nat (length out0) = packed_len T W -> length out1 = 1024%nat ->
+  exists packed,
+    unchecked_pack T W input out0 = Ok packed /\
+    N.of_nat (length packed) = packed_len T W /\
+    unchecked_unpack T W packed out1 = Ok (map (fun x => x mod 2 ^ W) input).
+Proof.
+  intros HT HWT Hlen Hb Hout0 Hout1.
+  assert (E1024 : N.of_nat 1024 = 1024) by reflexivity.
+  unfold unchecked_pack. rewrite Hout0, N.eqb_refl, Hlen, E1024. cbn [negb].
+  change (1024 =? 1024) with true. cbn [negb].
+  replace (T <? W) with false by (symmetry; apply N.ltb_ge; exact HWT).
+  destruct (N.eqb_spec W 0) as [->|HW0].
+  - exists out0. split; [reflexivity|]. split; [exact Hout0|].
+    unfold unchecked_unpack. rewrite Hout0, N.eqb_refl, Hout1, E1024. cbn [negb].
+    change (1024 =? 1024) with true. cbn [negb].
+    replace (T <? 0) with false by (symmetry; apply N.ltb_ge; lia). rewrite N.eqb_refl.
+    f_equal. rewrite (map_const_len 0 out1 input) by lia. apply map_ext. intro x.
+    rewrite N.pow_0_r. symmetry. apply N.mod_1_r.
+  - assert (HW0' : 0 < W) by lia.
+    set (packed := scatter out0 (pack_writes T W input)).
+    assert (Hplen : N.of_nat (length packed) = packed_len T W).
+    { unfold packed. rewrite scatter_length. exact Hout0. }
+    exists packed. split; [reflexivity|]. split; [exact Hplen|].
+    unfold unchecked_unpack. rewrite Hplen, N.eqb_refl, Hout1, E1024. cbn [negb].
+    change (1024 =? 1024) with true. cbn [negb].
+    replace (T <? W) with false by (symmetry; apply N.ltb_ge; exact HWT).
+    destruct (N.eqb_spec W 0) as [E|_]; [lia|]. f_equal.
+    apply (unpack_array T W HT HW0' HWT input Hlen Hb packed); [|exact Hout1].
+    intros lane k Hlane Hk. unfold packed.
+    apply (pack_array T W HT HW0' HWT input Hlen Hb out0); [|exact Hlane | exact Hk].
+    rewrite Hout0. apply packed_len_spec. exact HT.
+Qed.
+
+Lemma map_mod_small (W : N) (l : list N) : Forall (fun x => x < 2 ^ W) l -> map (fun x => x mod 2 ^ W) l = l.
+Proof.
+  intro H. rewrite <- (map_id l) at 2. apply map_ext_in. intros x Hx. apply N.mod_small.
+  rewrite Forall_forall in H. apply H. exact Hx.
+Qed.
+
+Theorem fl_roundtrip (T W : N) (input out0 out1 : list N) :
+  In T types -> W <= T ->
+  length input = 1024%nat -> Forall (fun x => x < 2 ^ W) input ->
+  N.of_nat (length out0) = packed_len T W -> length out1 = 1024%nat ->
+  exists packed,
+    unchecked_pack T W input out0 = Ok packed /\
+    N.of_nat (length packed) = packed_len T W /\
+    unchecked_unpack T W packed out1 = Ok input.
+Proof.
+  intros HT HWT Hlen Hb Hout0 Hout1.
+  assert (HbT : Forall (fun x => x < 2 ^ T) input).
+  { eapply Forall_impl; [|exact Hb]. cbn beta. intros x Hx.
+    apply N.lt_le_trans with (2 ^ W); [exact Hx | apply pow2_le; exact HWT]. }
+  destruct (fl_roundtrip_gen T W input out0 out1 HT HWT Hlen HbT Hout0 Hout1) as (packed & H1 & H2 & H3).
+  exists packed. rewrite map_mod_small in H3 by exact Hb. repeat split; assumption.
+Qed.
+
+(* the lane-level statement holds for every word size T, not only the four instantiated ones *)
+Theorem fl_lane_roundtrip_allT (T W : N) (vals : N -> N) :
+  0 < W -> W <= T -> (forall r, vals r < 2 ^ W) ->
+  let words := map snd (pack_lane T W vals) in
+  length words = N.to_nat W /\
+  Forall (fun w => w < 2 ^ T) words /\
+  unpack_lane T W (fun k => nth (N.to_nat k) words 0) = map (fun r => (r, vals r)) (rows (N.to_nat T)).
+Proof.
+  intros HW0 HWT Hv.
+  assert (HvT : forall r, vals r < 2 ^ T).
+  { intro r. apply N.lt_le_trans with (2 ^ W); [apply Hv | apply pow2_le; exact HWT]. }
+  destruct (pack_lane_sum T W vals HW0 HWT HvT) as (Hf & Hw & _).
+  destruct (lane_roundtrip T W vals (fun k => nth (N.to_nat k) (map snd (pack_lane T W vals)) 0) HW0 HWT HvT
+              (fun k _ => eq_refl)) as [H1 H2].
+  cbn zeta. repeat split.
+  - rewrite map_length, <- (map_length fst), Hf. apply rows_length.
+  - exact Hw.
+  - set (outs := unpack_lane T W _) in *.
+    assert (E : outs = combine (map fst outs) (map snd outs)).
+    { clear. induction outs as [|[a b] l IH]; cbn [map combine fst snd]; [reflexivity | f_equal; exact IH]. }
+    rewrite E, H1, H2. clear - Hv.
+    induction (rows (N.to_nat T)) as [|r l IH]; cbn [map combine]; [reflexivity|].
+    rewrite IH. f_equal. f_equal. apply N.mod_small. apply Hv.
+Qed.
